@@ -3,6 +3,7 @@
   uncancelled runs; the failure and cancellation clauses are checked on the implementation).
 -/
 import BloomVerif.Model.ReadPlan
+import BloomVerif.Lemmas.Stats
 namespace BloomVerif.C23
 open BloomVerif.ReadPlan
 
@@ -69,5 +70,83 @@ theorem skipped_not_read (hb : Bool) (f : QFile) (o : Nat) (h : (o, BStat.skippe
 example : ∃ (f : QFile) (o : Nat), (o, BStat.skipped) ∈ (filePlan true f).stats ∧ (f.blocks.map (·.off)).Nodup ∧
     rowReads (filePlan true f) = [40] :=
   ⟨⟨true, [⟨0, 5, true, false, 9⟩, ⟨40, 3, true, true, 9⟩, ⟨80, 1, false, true, 9⟩]⟩, 0, by decide, by decide, by decide⟩
+
+/-! ### What the entries add up to (clean completion) -/
+open BloomVerif.Stats
+
+/-- witness file: block 0 is ruled out by its own filters, block 40 is scanned (rows 0 and 2 of 3 match),
+    block 80 is dropped by the prefilter, block 120 is scanned without a match -/
+private def nv_blocks : List SBlock :=
+  [⟨⟨0, 5, true, false, 9⟩, 50, [1, 2]⟩, ⟨⟨40, 3, true, true, 9⟩, 33, [0, 2]⟩, ⟨⟨80, 1, false, true, 9⟩, 10, [0]⟩, ⟨⟨120, 2, true, true, 0⟩, 21, []⟩]
+
+/-- A skipped block reports zero rows and zero bytes. -/
+theorem skipped_reports_zero (hb : Bool) (bs : List SBlock) (e : Entry) (he : e ∈ entries hb bs)
+    (hs : e.skipped = true) : e.rowsProcessed = 0 ∧ e.bytesProcessed = 0 := by
+  unfold entries at he
+  obtain ⟨b, _, rfl⟩ := List.mem_map.mp he
+  unfold entryOf at hs ⊢
+  cases h : blockStat hb b.q <;> simp [h] at hs ⊢
+
+/-- non-vacuity: the witness file has a skipped entry (block 0), and it reports zeros -/
+example : (⟨0, true, 0, 0⟩ : Entry) ∈ entries true nv_blocks ∧
+    ((⟨0, true, 0, 0⟩ : Entry).rowsProcessed = 0 ∧ (⟨0, true, 0, 0⟩ : Entry).bytesProcessed = 0) :=
+  ⟨by decide, skipped_reports_zero true nv_blocks _ (by decide) rfl⟩
+
+/-- On clean completion a processed block's rows processed equal its row count. -/
+theorem processed_reports_all_rows (hb : Bool) (bs : List SBlock) (e : Entry) (he : e ∈ entries hb bs)
+    (hs : e.skipped = false) : ∃ b ∈ bs, b.q.pre = true ∧ e.off = b.q.off ∧ e.rowsProcessed = b.q.rows ∧ e.bytesProcessed = b.bytes := by
+  unfold entries evaluated at he
+  obtain ⟨b, hb', rfl⟩ := List.mem_map.mp he
+  have hm := List.mem_filter.mp hb'
+  refine ⟨b, hm.1, by simpa using hm.2, ?_⟩
+  unfold entryOf at hs ⊢
+  cases h : blockStat hb b.q <;> simp [h] at hs ⊢
+
+/-- non-vacuity: block 40 of the witness file is processed with its 3 rows and 33 bytes -/
+example : (⟨40, false, 3, 33⟩ : Entry) ∈ entries true nv_blocks ∧
+    ∃ b ∈ nv_blocks, b.q.pre = true ∧ (40 : Nat) = b.q.off ∧ (3 : Nat) = b.q.rows ∧ (33 : Nat) = b.bytes :=
+  ⟨by decide, processed_reports_all_rows true nv_blocks ⟨40, false, 3, 33⟩ (by decide) rfl⟩
+
+/-- Every block that contained a returned row is listed, as processed. -/
+theorem returned_row_block_processed (hb : Bool) (bs : List SBlock) (o i : Nat)
+    (h : (o, i) ∈ returned hb bs) : ∃ e ∈ entries hb bs, e.off = o ∧ e.skipped = false := by
+  unfold returned at h
+  obtain ⟨b, hbm, hr⟩ := List.mem_flatMap.mp h
+  refine ⟨entryOf hb b, List.mem_map.mpr ⟨b, hbm, rfl⟩, ?_⟩
+  unfold entryOf
+  cases hst : blockStat hb b.q with
+  | skipped => simp [hst] at hr
+  | processed =>
+    simp only [hst, List.mem_map] at hr
+    obtain ⟨_, _, heq⟩ := hr
+    exact ⟨(Prod.mk.inj heq).1, rfl⟩
+
+/-- non-vacuity: row 2 of block 40 is returned by the witness file's query -/
+example : ((40, 2) : Nat × Nat) ∈ returned true nv_blocks ∧ ∃ e ∈ entries true nv_blocks, e.off = 40 ∧ e.skipped = false :=
+  ⟨by decide, returned_row_block_processed true nv_blocks 40 2 (by decide)⟩
+
+/-- The totals equal the per-block sums, and the block counters partition the entries. -/
+theorem totals_are_sums (es : List Entry) :
+    (totals es).rowsScanned = ((es.filter (!·.skipped)).map (·.rowsProcessed)).sum ∧
+    (totals es).bytesScanned = ((es.filter (!·.skipped)).map (·.bytesProcessed)).sum ∧
+    (totals es).blocksProcessed = (es.filter (!·.skipped)).length ∧
+    (totals es).blocksSkipped = (es.filter (·.skipped)).length := by
+  unfold totals
+  rw [totals_eq_sums_aux]
+  simp
+
+/-- The totals do not depend on the order in which the workers finished their blocks. -/
+theorem totals_order_independent (l1 l2 : List Entry) (h : l1.Perm l2) : totals l1 = totals l2 :=
+  foldl_addEntry_perm l1 l2 h {}
+
+/-- non-vacuity: the witness file's entries in file order and in another completion order -/
+example : (entries true nv_blocks).Perm [⟨120, false, 2, 21⟩, ⟨0, true, 0, 0⟩, ⟨40, false, 3, 33⟩] ∧
+    totals (entries true nv_blocks) = ⟨5, 54, 2, 1⟩ :=
+  ⟨by decide, by decide⟩
+
+/-- On clean completion `RowsMatched` equals the number of rows returned. -/
+theorem rows_matched_is_rows_returned (hb : Bool) (bs : List SBlock) :
+    (returned hb bs).length = rowsMatched hb bs :=
+  returned_length hb bs
 
 end BloomVerif.C23
